@@ -32,7 +32,7 @@ from fractions import Fraction
 
 class MappingSpec:
     def __init__(self, name, from_nodes, from_edges, table, beads, bead_edges,
-                 interactions, normalize=False):
+                 interactions, normalize=False, references=None):
         # from_nodes: list of (node_id, match_attrs dict, resid_in_mapping)
         # from_edges: list of (node_id, node_id)
         # table: {node_id: [(bead_index, weight), ...]}
@@ -47,6 +47,10 @@ class MappingSpec:
         self.bead_edges = [tuple(e) for e in bead_edges]
         self.interactions = interactions
         self.normalize = normalize
+        # {bead index: fragment node id}: Mapping docstring: "which node in
+        # blocks_from should be taken as a reference when determining node
+        # attributes for nodes in block_to"
+        self.references = dict(references or {})
 
     def weights(self):
         """{node_id: {bead: weight}} with the declared normalisation applied:
@@ -61,7 +65,12 @@ class MappingSpec:
                 for k, v in self.table.items()}
 
 
-def find_placements(atoms, bonds, spec):
+class TooManyPlacements(Exception):
+    """More placements than the caller wants to handle (fragments that fall
+    apart into pieces fit on every combination of residues)."""
+
+
+def find_placements(atoms, bonds, spec, limit=None):
     """All assignments {fragment node id: atom key} under which `spec` fits."""
     neighbours = {key: set() for key in atoms}
     for bond in bonds:
@@ -82,6 +91,8 @@ def find_placements(atoms, bonds, spec):
                  if all(atoms[key].get(name) == value for name, value in attrs.items())]
         candidates.append(cands)
     found = []
+    if any(not cands for cands in candidates):
+        return found
     assignment = {}
     used = set()
 
@@ -103,6 +114,8 @@ def find_placements(atoms, bonds, spec):
     def extend(idx):
         if idx == len(ids):
             found.append(dict(assignment))
+            if limit is not None and len(found) > limit:
+                raise TooManyPlacements(spec.name)
             return
         for key in candidates[idx]:
             if key in used or not compatible(idx, key):
@@ -132,6 +145,7 @@ class Placement:
         # particles nobody maps to: doc of do_mapping: "None to one - whole
         # block taken as origin, with weights 0"
         self.no_atom = [not w for w in self.bead_weights]
+        self.reference_atom = {bead: assignment[node] for bead, node in spec.references.items()}
         for bead, empty in enumerate(self.no_atom):
             if empty:
                 self.bead_weights[bead] = {key: 0 for key in self.atoms}
@@ -141,11 +155,13 @@ class Placement:
                 for bead, weights in zip(self.spec.beads, self.bead_weights)]
 
 
-def all_placements(atoms, bonds, specs):
+def all_placements(atoms, bonds, specs, limit=None):
     out = []
     for spec in specs:
-        for assignment in find_placements(atoms, bonds, spec):
+        for assignment in find_placements(atoms, bonds, spec, limit=limit):
             out.append(Placement(spec, assignment))
+        if limit is not None and len(out) > limit:
+            raise TooManyPlacements(spec.name)
     return out
 
 
@@ -181,8 +197,11 @@ class Prediction:
                 choice = {}
                 optional = {}
                 clash = []
+                sources = sorted(weights)
+                if bidx in placement.reference_atom:
+                    sources = [placement.reference_atom[bidx]]
                 for attr in relevant:
-                    values = [atoms[key][attr] for key in sorted(weights) if attr in atoms[key]]
+                    values = [atoms[key][attr] for key in sources if attr in atoms[key]]
                     if not values:
                         continue
                     distinct = []
